@@ -683,4 +683,53 @@ theorem layersF_abs (f : Nat) : ∀ (s : HOverlay) (h : Heap), (∀ p ∈ s, ∃
       rw [e2, hy]
       exact absH_mono l1 f p.2 y hy
 
+/-- the snapshots of one `Layers()` call lie in consecutive, disjoint address intervals: every cell
+    of an earlier snapshot is below every cell of a later one -/
+theorem layersF_ordered (f : Nat) : ∀ (s : HOverlay) (h h' : Heap) (snaps : HOverlay),
+    layersF f h s = some (h', snaps) →
+    ∀ (i j : Nat) (p q : String × Addr), i < j → snaps[i]? = some p → snaps[j]? = some q →
+      ∀ b b', Reach h' p.2 b → Reach h' q.2 b' → b < b'
+  | [], h, h', snaps, he => by
+    simp only [layersF, Option.some.injEq, Prod.mk.injEq] at he
+    obtain ⟨_, rfl⟩ := he
+    intro i j p q _ hp; simp at hp
+  | (n, a) :: rest, h, h', snaps, he => by
+    simp only [layersF] at he
+    cases hc : cloneF f h a with
+    | none => simp [hc] at he
+    | some q1 =>
+      obtain ⟨h1, r⟩ := q1
+      simp only [hc] at he
+      cases hr : layersF f h1 rest with
+      | none => simp [hr] at he
+      | some q2 =>
+        obtain ⟨h2, sn⟩ := q2
+        simp only [hr, Option.some.injEq, Prod.mk.injEq] at he
+        obtain ⟨rfl, rfl⟩ := he
+        obtain ⟨l1, b1, b2, _⟩ := cloneF_spec f h a h1 r hc
+        obtain ⟨l2, _, hb, _⟩ := layersF_spec f rest h1 h2 sn hr
+        have hreg1 := cloneF_region hc
+        have hreg2 := layersF_region hr
+        -- the first snapshot's region is untouched by the later clones
+        have hreg1' : Region h.size h1.size h2 := by
+          intro x c hx0 hx1 hg k hk
+          rw [get?_eq_of_le l2 hx1] at hg
+          exact hreg1 x c hx0 hx1 hg k hk
+        intro i j p q hij hp hq b b' hrb hrb'
+        cases j with
+        | zero => omega
+        | succ j' =>
+          simp only [List.getElem?_cons_succ] at hq
+          have hq2 := hb q (List.mem_of_getElem? hq)
+          have hb' := hreg2.reach hrb' hq2.1 hq2.2
+          cases i with
+          | zero =>
+            simp only [List.getElem?_cons_zero, Option.some.injEq] at hp
+            subst hp
+            have hb0 := hreg1'.reach hrb b1 b2
+            exact Nat.lt_of_lt_of_le hb0.2 hb'.1
+          | succ i' =>
+            simp only [List.getElem?_cons_succ] at hp
+            exact layersF_ordered f rest h1 h2 sn hr i' j' p q (by omega) hp hq b b' hrb hrb'
+
 end Ytk.Heap
